@@ -135,9 +135,9 @@ func c17Build(api string, atoms []string, eomp bool, dropMissing bool) c17Built 
 func c17Gen(c *vfCtx, emit func(c17Case)) {
 	var lists [][]string
 	var rec func(acc []string)
-	maxLen := 2
+	maxLen := 3
 	if c.thorough() {
-		maxLen = 3
+		maxLen = 4
 	}
 	rec = func(acc []string) {
 		if len(acc) > 0 {
@@ -151,7 +151,7 @@ func c17Gen(c *vfCtx, emit func(c17Case)) {
 		}
 	}
 	rec(nil)
-	if !c.thorough() {
+	if false {
 		// selected triples: every atom between two others
 		for i, a := range c17Atoms {
 			lists = append(lists, []string{c17Atoms[(i+3)%len(c17Atoms)], a, c17Atoms[(i+6)%len(c17Atoms)]}, []string{a, a, a},
